@@ -141,8 +141,16 @@ Definition on_ack (s : st) (now bytes : Z) (app_limited : bool) (rtt_min : Z) : 
      (round_end_pn s) (round_count s) (bw_at_last_round s) (round_wo_bw_gain s)
      (height s) (epoch_start s) (epoch_bytes s) (exit_at s) (last_started s) mr).
 
-Definition on_end_acks (s : st) (now in_flight : Z) (app_limited : bool) (largest : option Z)
-           (r075 r1 rg : Z) : option st :=
+(** Everything [on_end_acks] decides before it recomputes the two windows. *)
+Record pre := mkpre {
+  p_bytes_acked : Z; p_excess : Z; p_height : mm; p_epoch_start : option Z; p_epoch_bytes : Z;
+  p_max_acked : Z; p_end_rec : Z; p_round_end : Z; p_round_count : Z; p_bwlr : Z; p_rwo : Z;
+  p_full : bool; p_rec : Z; p_rwin : Z; p_mode : Z; p_derived : bool; p_exit : option Z;
+  p_started : option Z
+}.
+
+Definition end_acks_pre (s : st) (now in_flight : Z) (app_limited : bool) (largest : option Z)
+           (r075 r1 : Z) : option pre :=
   let bytes_acked := total_acked s - acked_at_last_window s in
   (* update_ack_aggregation_bytes *)
   do expected0 <- cmul (bw s) (sat_since now (match epoch_start s with Some e => e | None => now end));
@@ -198,32 +206,42 @@ Definition on_end_acks (s : st) (now in_flight : Z) (app_limited : bool) (larges
        end
      else Some (mode3, derived2, exit1));
   let '(mode4, derived4, exit2) := pr in
-  (* calculate_cwnd *)
-  do cwnd1 <-
-    (if mode4 =? 3 then Some (cwnd s)
-     else
-       do tw <- cadd (target s rg) (if full1 then mm_get height2 else excess_acked);
-       do c <-
-         (if full1 then do c1 <- cadd (cwnd s) bytes_acked; Some (Z.min tw c1)
-          else if (3 <=? tw) || (acked_bytes s <? init_cwnd s) then cadd (cwnd s) bytes_acked
-          else Some (cwnd s));
-       Some (if c <? min_cwnd s then min_cwnd s else c));
-  (* calculate_recovery_window *)
-  do rwin2 <-
-    (if rec1 =? 0 then Some rwin1
-     else
-       do fa <- cadd in_flight bytes_acked;
-       if rwin1 =? 0 then Some (Z.max (min_cwnd s) fa)
-       else
-         let a := if lost_bytes s <=? rwin1 then rwin1 - lost_bytes s else mtu s in
-         do b <- (if rec1 =? 2 then cadd a bytes_acked else Some a);
-         Some (Z.max (Z.max b fa) (min_cwnd s)));
-  Some (mk (mtu s) (min_cwnd s) (init_cwnd s) (iwc s) cwnd1 rwin2 rec1 mode4 full1 derived4
+  Some (mkpre bytes_acked excess_acked height2 epoch_start' epoch_bytes' max_acked end_rec
+              round_end2 round_count' bwlr rwo full1 rec1 rwin1 mode4 derived4 exit2 started1).
+
+(** [calculate_cwnd]; [rg] = raw target for the current cwnd gain. *)
+Definition calc_cwnd (s : st) (p : pre) (rg : Z) : option Z :=
+  if p_mode p =? 3 then Some (cwnd s)
+  else
+    do tw <- cadd (target s rg) (if p_full p then mm_get (p_height p) else p_excess p);
+    do c <-
+      (if p_full p then do c1 <- cadd (cwnd s) (p_bytes_acked p); Some (Z.min tw c1)
+       else if (3 <=? tw) || (acked_bytes s <? init_cwnd s) then cadd (cwnd s) (p_bytes_acked p)
+       else Some (cwnd s));
+    Some (if c <? min_cwnd s then min_cwnd s else c).
+
+(** [calculate_recovery_window]. *)
+Definition calc_rwin (s : st) (p : pre) (in_flight : Z) : option Z :=
+  if p_rec p =? 0 then Some (p_rwin p)
+  else
+    do fa <- cadd in_flight (p_bytes_acked p);
+    if p_rwin p =? 0 then Some (Z.max (min_cwnd s) fa)
+    else
+      let a := if lost_bytes s <=? p_rwin p then p_rwin p - lost_bytes s else mtu s in
+      do b <- (if p_rec p =? 2 then cadd a (p_bytes_acked p) else Some a);
+      Some (Z.max (Z.max b fa) (min_cwnd s)).
+
+Definition on_end_acks (s : st) (now in_flight : Z) (app_limited : bool) (largest : option Z)
+           (r075 r1 rg : Z) : option st :=
+  do p <- end_acks_pre s now in_flight app_limited largest r075 r1;
+  do cwnd1 <- calc_cwnd s p rg;
+  do rwin2 <- calc_rwin s p in_flight;
+  Some (mk (mtu s) (min_cwnd s) (init_cwnd s) (iwc s) cwnd1 rwin2 (p_rec p) (p_mode p) (p_full p) (p_derived p)
      (total_acked s) (prev_total_acked s) (acked_time s) (prev_acked_time s)
      (total_sent s) (prev_total_sent s) (sent_time s) (prev_sent_time s) (bw s) (total_acked s)
-     (acked_bytes s) 0 (max_sent_pn s) max_acked end_rec
-     round_end2 round_count' bwlr rwo
-     height2 epoch_start' epoch_bytes' exit2 started1 (min_rtt s)).
+     (acked_bytes s) 0 (max_sent_pn s) (p_max_acked p) (p_end_rec p)
+     (p_round_end p) (p_round_count p) (p_bwlr p) (p_rwo p)
+     (p_height p) (p_epoch_start p) (p_epoch_bytes p) (p_exit p) (p_started p) (min_rtt s)).
 
 Definition on_congestion_event (s : st) (lost : Z) : option st :=
   do l <- cadd (lost_bytes s) lost;
